@@ -4,6 +4,7 @@
 #include "symx.h"
 #include <stdio.h>
 #include <stdlib.h>
+#include <unistd.h>
 #include <string.h>
 #include <vector>
 #include <string>
@@ -26,20 +27,22 @@ uint16_t symx_u16(const char *) { return (uint16_t)next(); }
 uint32_t symx_u32(const char *) { return (uint32_t)next(); }
 uint64_t symx_u64(const char *) { return next(); }
 void symx_make_symbolic(void *p, size_t n, const char *) { for (size_t i = 0; i < n; i++) ((uint8_t *)p)[i] = (uint8_t)next(); }
-void symx_assume(int c) { if (!c) { printf("SYMX-ASSUME-FALSE\n"); fflush(stdout); _Exit(g_fail ? 1 : 77); } }
-void symx_assert(int c, const char *msg) { if (!c) { printf("SYMX-ASSERT-FAIL: %s\n", msg); fflush(stdout); g_fail = 1; } }
-void symx_note(const char *tag, uint64_t v) { printf("NOTE %s %llu\n", tag, (unsigned long long)v); }
-void symx_note_str(const char *tag, const char *t) { printf("NOTE %s %s\n", tag, t); }
+void symx_assume(int c) { if (!c) { fprintf(stderr, "SYMX-ASSUME-FALSE\n"); fflush(stdout); _Exit(g_fail ? 1 : 77); } }
+void symx_assert(int c, const char *msg) { if (!c) { fprintf(stderr, "SYMX-ASSERT-FAIL: %s\n", msg); g_fail = 1; } }
+void symx_note(const char *tag, uint64_t v) { fprintf(stderr, "NOTE %s %llu\n", tag, (unsigned long long)v); }
+void symx_note_str(const char *tag, const char *t) { fprintf(stderr, "NOTE %s %s\n", tag, t); }
 void symx_cover(const char *) {}
 uint64_t symx_concretize(uint64_t v) { return v; }
 int symx_is_symbolic(uint64_t) { return 0; }
-void symx_on_exit(void (*h)(int)) { g_hook = h; }
-void symx_capture_stdout(int) {}
+static void exit_trampoline(int status, void *) { if (g_hook) { void (*h)(int) = g_hook; g_hook = 0; h(status); } fflush(stdout); if (g_fail) _Exit(1); }
+void symx_on_exit(void (*h)(int)) { if (!g_hook) on_exit(exit_trampoline, 0); g_hook = h; }
+static int g_capture;
+void symx_capture_stdout(int on) { if (on && !g_capture) { g_capture = 1; fflush(stdout); freopen("__stdout.txt", "w", stdout); } }
 uint64_t symx_obj_remaining(const void *) { return 1u << 30; }
 int symx_mem_equal(const void *a, const void *b, size_t n) { return memcmp(a, b, n) == 0; }
 void symx_file_put(const char *name, const void *d, size_t n) { FILE *f = fopen(name, "wb"); if (f) { fwrite(d, 1, n, f); fclose(f); } }
 long symx_file_size(const char *name) { FILE *f = fopen(name, "rb"); if (!f) return -1; fseek(f, 0, SEEK_END); long n = ftell(f); fclose(f); return n; }
-long symx_file_get(const char *name, void *buf, size_t max) { FILE *f = fopen(name, "rb"); if (!f) return -1; long n = fread(buf, 1, max, f); fclose(f); return n; }
+long symx_file_get(const char *name, void *buf, size_t max) { if (!strcmp(name, "<stdout>")) { fflush(stdout); name = "__stdout.txt"; } FILE *f = fopen(name, "rb"); if (!f) return -1; long n = fread(buf, 1, max, f); fclose(f); return n; }
 int symx_native_failed() { return g_fail; }
 }
 extern "C" void harness_main();
@@ -51,6 +54,7 @@ int main()
 {
   setvbuf(stdout, 0, _IOLBF, 0);
   SYMX_NATIVE_ENTRY();
+  g_hook = 0;
   at_end();
   return g_fail ? 1 : 0;
 }
